@@ -86,6 +86,14 @@ def finite(v):
     return True
 
 
+def finite_or_nan(v):
+    if isinstance(v, T):
+        return v.tag == "nan"
+    if isinstance(v, list):
+        return all(finite_or_nan(x) for x in v)
+    return True
+
+
 def match_finding(prop, cls, trig):
     """A violation is attributed to a known finding only if class AND trigger coincide."""
     for f in core.load_findings():
